@@ -128,9 +128,75 @@ theorem addChannelBetweenNodes_eq (g : Graph) (scid : Nat) (c : ChanInfo) (v : O
   unfold Impl.addChannelBetweenNodes Gossip.addChannelBetweenNodes
   rw [gen_replaceExisting]
 
+/-! ### signature checks: the generated (signature, key) list is the BOLT 7 pairing, complete and exact -/
+
+/-- the check list translated from verify_channel_announcement is exactly: every signature field of the
+    message, each against its own key -/
+theorem chanAnnSigChecks_exact : Gen.chanAnnSigChecks = Gen.CaSig.all.map fun s => (s, s.ownKey) := by decide
+
+theorem nodeAnnSigChecks_exact : Gen.nodeAnnSigChecks = Gen.NaSig.all.map fun s => (s, s.ownKey) := by decide
+
+theorem caSig_all_complete (s : Gen.CaSig) : s ∈ Gen.CaSig.all := by cases s <;> decide
+
+theorem naSig_all_complete (s : Gen.NaSig) : s ∈ Gen.NaSig.all := by cases s <;> decide
+
+/-- verify_channel_announcement accepts iff EVERY signature of the message verifies against its own key -/
+theorem verifyChanAnn_iff (w : CaWire) :
+    verifyChanAnn w = true ↔ ∀ s : Gen.CaSig, (w.sig s).verifies (w.key s.ownKey) = true := by
+  unfold verifyChanAnn
+  rw [chanAnnSigChecks_exact, List.all_map, List.all_eq_true]
+  constructor
+  · intro h s; exact h s (caSig_all_complete s)
+  · intro h s _; exact h s
+
+theorem verifyNodeAnn_iff (w : NaWire) :
+    verifyNodeAnn w = true ↔ ∀ s : Gen.NaSig, (w.sig s).verifies (w.key s.ownKey) = true := by
+  unfold verifyNodeAnn
+  rw [nodeAnnSigChecks_exact, List.all_map, List.all_eq_true]
+  constructor
+  · intro h s; exact h s (naSig_all_complete s)
+  · intro h s _; exact h s
+
+theorem ChanAnn.wire_verifies (a : ChanAnn) (s : Gen.CaSig) :
+    ((a.wire).sig s).verifies ((a.wire).key s.ownKey) = a.flag s := by
+  simp only [ChanAnn.wire, SigBy.verifies, Bool.true_and]
+  cases h : a.flag s
+  · cases s <;> simp [Gen.CaSig.ownKey, ChanAnn.keyOf]
+  · simp
+
+theorem chanAnnSigsVerify_eq (a : ChanAnn) : Impl.chanAnnSigsVerify a = a.sigsOk := by
+  rw [Bool.eq_iff_iff]
+  unfold Impl.chanAnnSigsVerify
+  rw [verifyChanAnn_iff]
+  simp only [ChanAnn.wire_verifies, ChanAnn.sigsOk, Bool.and_eq_true]
+  constructor
+  · intro h
+    exact ⟨⟨⟨h .node_signature_1, h .node_signature_2⟩, h .bitcoin_signature_1⟩, h .bitcoin_signature_2⟩
+  · intro h s
+    cases s
+    · exact h.1.1.1
+    · exact h.1.1.2
+    · exact h.1.2
+    · exact h.2
+
+theorem nodeAnnSigVerifies_eq (n : NodeAnn) : Impl.nodeAnnSigVerifies n = n.sigOk := by
+  rw [Bool.eq_iff_iff]
+  unfold Impl.nodeAnnSigVerifies
+  rw [verifyNodeAnn_iff]
+  constructor
+  · intro h
+    have := h .signature
+    simp only [NodeAnn.wire, SigBy.verifies, Gen.NaSig.ownKey, Bool.true_and] at this
+    cases hs : n.sigOk
+    · simp [hs] at this
+    · rfl
+  · intro h s
+    cases s
+    simp [NodeAnn.wire, SigBy.verifies, Gen.NaSig.ownKey, h]
+
 theorem applyChanAnn_eq (g : Graph) (a : ChanAnn) : Impl.applyChanAnn g a = Gossip.applyChanAnn g a := by
   unfold Impl.applyChanAnn Gossip.applyChanAnn
-  rw [chanAnnPre_eq, gen_annRecentlyRemoved]
+  rw [chanAnnPre_eq, gen_annRecentlyRemoved, chanAnnSigsVerify_eq]
   simp only [addChannelBetweenNodes_eq, noExcess, gen_annKeepMessage0, Bool.and_true, Option.isSome]
 
 theorem applyChanPartial_eq (g : Graph) (scid : Nat) (cap : Option Nat) (recv n1 n2 : Nat) :
@@ -168,6 +234,7 @@ theorem updNode_eq (ni : NodeInfo) (n : NodeAnn) : Impl.updNode ni n = Gossip.up
 
 theorem applyNodeAnn_eq (g : Graph) (n : NodeAnn) : Impl.applyNodeAnn g n = Gossip.applyNodeAnn g n := by
   unfold Impl.applyNodeAnn Gossip.applyNodeAnn
+  rw [nodeAnnSigVerifies_eq]
   cases g.nodes.get n.node with
   | none => rfl
   | some ni =>
